@@ -102,9 +102,9 @@ def plan_for(prop, tier):
             stages=[
                 dict(kind="worker", name="before-main-worlds", variant="asan", part="premain", runs=-1, block=1, hash_mod=1, key_mod=1, extra=["--cold"], recheck_block=1),
                 dict(kind="worker", name="cross-product", variant="asan", part="cross", runs=-1, block=500, hash_mod=50, key_mod=1),
-                dict(kind="worker", name="random-worlds", variant="asan", part="random", runs=40000 if q else 2000000, block=1000, hash_mod=50, key_mod=1 if q else 16),
-                dict(kind="worker", name="faulted-worlds", variant="asan", part="faulted", runs=150000 if q else 6000000, block=1000, hash_mod=50, key_mod=1 if q else 16),
-                dict(kind="worker", name="platform-fallback-worlds", variant="asan", part="platform", runs=30000 if q else 1500000, block=1000, hash_mod=50, key_mod=1 if q else 16),
+                dict(kind="worker", name="random-worlds", variant="asan", part="random", runs=40000 if q else 1500000, block=1000, hash_mod=50, key_mod=1 if q else 16),
+                dict(kind="worker", name="faulted-worlds", variant="asan", part="faulted", runs=150000 if q else 4000000, block=1000, hash_mod=50, key_mod=1 if q else 16),
+                dict(kind="worker", name="platform-fallback-worlds", variant="asan", part="platform", runs=30000 if q else 800000, block=1000, hash_mod=50, key_mod=1 if q else 16),
             ])
     if prop == "C12":
         return dict(
